@@ -67,6 +67,10 @@ def wb_inst(tb, rng, con, depth, allow_wild, scope=()):
                     a = rng.choice(cands) if (cands and rng.random() < 0.5) else b
                     if allow_wild and rng.random() < 0.15 and kind(a) != "w" and not p.is_contravariant():
                         a = tp.WildCardType(a, tp.Covariant)
+            if kind(a) == "w" and a.bound is not None and export.VAR(p.variance) not in (0, export.VAR(a.variance)):
+                # a projection that contradicts the declared variance is outside the property's domain:
+                # make it agree (declaration-site `in` + use-site `in` / `out` + `out` are the rare shapes)
+                a = tp.WildCardType(a.bound, p.variance)
             m[p] = a
             args.append(a)
         try:
@@ -98,6 +102,9 @@ def query(tb, rng):
     return tb.ground(2, rng.random() < 0.5)
 
 
+FOCUS_SEEDS = 3
+
+
 def synthetic(run, ntables, per_table):
     from src import utils
     import src.ir.type_utils as tu
@@ -109,7 +116,7 @@ def synthetic(run, ntables, per_table):
         tb = gen_types.Table(rng, pbound=0.3)
         boxes = fl.boxes_of(tb.bt)
         frames = []
-        with fl.Instrument() as ins:
+        with fl.Instrument(cap=20000) as ins:
             for _ in range(per_table):
                 k = rng.random()
                 types = type_list(tb, rng, with_vars=k < 0.65)
@@ -126,6 +133,23 @@ def synthetic(run, ntables, per_table):
                                            concrete_only=rng.random() < 0.6)
                     else:
                         tu.find_irrelevant_type(q, types, tb.bt)
+                        if kind(q) == "p":
+                            # the same query over its minimal type list (+ one or two other types), further RNG
+                            # seeds: only over a short list does the search pick the query's own constructor and
+                            # re-draw the nested arguments often enough to be observed
+                            mini = []
+                            for c in _mentioned(q, []):
+                                if kind(c) == "c":
+                                    c = next((d for d in tb.cons + tb.builtin_cons if d == c), c)
+                                mini.append(c)
+                            others = [t for t in types if not any(t == m for m in mini)]
+                            mini += rng.sample(others, min(len(others), rng.randint(0, 2)))
+                            for _s in range(FOCUS_SEEDS):
+                                utils.random.r.seed(rng.randrange(1 << 30))
+                                try:
+                                    tu.find_irrelevant_type(q, list(mini), tb.bt)
+                                except Exception as e:
+                                    exc[type(e).__name__] = exc.get(type(e).__name__, 0) + 1
                 except Exception as e:           # exceptions are recorded in the frames, counted, not judged
                     exc[type(e).__name__] = exc.get(type(e).__name__, 0) + 1
                 for fr in ins.take():
@@ -381,6 +405,11 @@ def witness_tables():
          lambda rs: any(kind(r) == "p" and r.name == "Qux" and r.type_args[0] == Leaf for r in rs)),
         ("projected_query", "irrelevant", bt, Box.new([tp.WildCardType()]), [Box, Foo, Baz, kt.String],
          lambda r: kind(r) == "p" and r.name == "Box"),
+        ("projected_query_contravariant", "irrelevant", bt,
+         tp.TypeConstructor("Sink", [tp.TypeParameter("T", tp.Contravariant)], [kt.Any]).new([Box.new([tp.WildCardType()])]),
+         [tp.TypeConstructor("Sink", [tp.TypeParameter("T", tp.Contravariant)], [kt.Any]), Box, Foo, Baz],
+         lambda r: kind(r) == "p" and r.name == "Sink" and kind(r.type_args[0]) == "p" and r.type_args[0].name == "Box"
+         and kind(r.type_args[0].type_args[0]) != "w"),
         ("type_variable_bound_chain", "irrelevant", bt, tp.TypeParameter("Z", bound=tp.TypeParameter("V", bound=kt.Double)),
          [kt.Double, kt.String, Foo], lambda r: r == kt.Double),
         ("nested_contravariant_projection", "subtypes", bt,
@@ -522,7 +551,7 @@ def check(run):
     witnesses(run)
     structured(run, ("kotlin", "java") if quick else ("kotlin", "java", "scala", "groovy"), 4 if quick else 12,
                12 if quick else 40)
-    synthetic(run, 30 if quick else 320, 40 if quick else 60)
+    synthetic(run, 26 if quick else 320, 40 if quick else 60)
     generator_stream(run, 12 if quick else 96)
     if not proofs_ok and not run.violations:
         run.violation({"kind": "broken-proof", "obligations": run.broken}, signature="proof", no_input=True)
